@@ -15,7 +15,7 @@ theorem metaMatches_self (f : Field) : Spec.metaMatches (metaOfField f) f = true
 /-- well-formed columns of one length make a well-formed root -/
 theorem zip_wf (len : Nat) : ∀ (fields : List Field) (arrs : List Arr), arrs.length = fields.length →
     (∀ (j : Nat) (f : Field) (a : Arr), fields[j]? = some f → arrs[j]? = some a →
-      Spec.WF f a = true ∧ (decodeAll a).length = len) →
+      Spec.WFS f a = true ∧ (decodeAll a).length = len) →
     Spec.wfFields (Fields.ofList fields) (zipCols fields arrs) len = true
   | [], [], _, _ => rfl
   | [], _ :: _, h, _ => by simp at h
